@@ -88,6 +88,7 @@ def main():
         out[name] = {k: sorted(set(v)) for k, v in sorted(per.items())}
         print('%s: %d hinted functions, %d with fragile clauses, %d entirely' % (name, len(hinted), sum(1 for v in out[name].values() if v), sum(1 for v in out[name].values() if '*' in v)))
         weave.FORCE_EXCEPT.clear()
+    out['_contracts_sha'] = kv.contracts_sha()
     json.dump(out, open(os.path.join(kv.VERIF, 'contracts', 'fragile.json'), 'w'), indent=1, sort_keys=True)
     return 0
 
